@@ -19,6 +19,8 @@ import (
 type c11Case struct {
 	Payload  string `json:"payload"`
 	Verifier string `json:"verifier"`
+	// Pipeline: the case is published through real gossipsub instead of calling the validator
+	Pipeline bool `json:"pipeline,omitempty"`
 }
 
 var c11Payloads = []string{"valid", "trailing-bytes", "fails-validate", "wrong-json-type", "truncated", "empty", "random-bytes", "unknown-field",
@@ -194,7 +196,11 @@ func TestC11(t *testing.T) {
 		if err != nil {
 			t.Fatal(err)
 		}
-		c11Exec(t, run, rc)
+		if rc.Pipeline {
+			c11Pipeline(t, run, &rc)
+		} else {
+			c11Exec(t, run, rc)
+		}
 		fmt.Printf("replayed %+v: violations=%d\n", rc, run.Violations())
 		return
 	}
@@ -210,13 +216,13 @@ func TestC11(t *testing.T) {
 			n++
 		}
 	}
-	c11Pipeline(t, run)
+	c11Pipeline(t, run, nil)
 	run.AddValidated(int64(len(c11Payloads) * len(c11Verifiers))) // every class is executed on the real validator
 }
 
 // c11Pipeline binds the verdicts to the real gossipsub pipeline: A publishes raw payloads,
 // B runs the real Subscriber, C sits behind B and only sees what B relays.
-func c11Pipeline(t *testing.T, run *vk.Run) {
+func c11Pipeline(t *testing.T, run *vk.Run, only *c11Case) {
 	type pc struct {
 		Payload, Verifier string
 		deliver           bool
@@ -228,9 +234,13 @@ func c11Pipeline(t *testing.T, run *vk.Run) {
 	}
 	for _, c := range cases {
 		c := c
+		if only != nil && (only.Payload != c.Payload || only.Verifier != c.Verifier) {
+			continue
+		}
+		run.Inflight(shardOf(t), c11Case{c.Payload, c.Verifier, true})
 		feat := fmt.Sprintf("pipeline,payload=%s,verifier=%s", c.Payload, c.Verifier)
 		viol := func(clause, format string, a ...any) {
-			run.Violate("C11/"+clause+"/"+feat, c11Case{c.Payload, c.Verifier}, "%s: %s", feat, fmt.Sprintf(format, a...))
+			run.Violate("C11/"+clause+"/"+feat, c11Case{c.Payload, c.Verifier, true}, "%s: %s", feat, fmt.Sprintf(format, a...))
 		}
 		br := vk.Bubble(t, func() {
 			ctx, cancel := context.WithCancel(context.Background())
